@@ -149,6 +149,12 @@ def harness_build(name, features=None, extra_env=None):
         env.update(extra_env)
     lock_src = os.path.join(REPO, "Cargo.lock")
     with Lock("cargo-" + name):
+        if name == "world":
+            # dispatch tables over the login opcode enums are re-derived from /repo's current sources
+            sys.path.insert(0, os.path.join(VERIF, "tools"))
+            import gen_harness_login
+            gen_harness_login.generate()
+            gen_harness_login.generate_async()
         if not os.path.exists(os.path.join(crate, "Cargo.lock")) and os.path.exists(lock_src):
             subprocess.run(["cp", lock_src, os.path.join(crate, "Cargo.lock")])
         cmd = ["cargo", "build", "--offline"]
